@@ -13,6 +13,7 @@ VARIABLE i
 PrecTol == 64     \* units of machine epsilon of the dtype the factors came out in (relative to max(1, |W|)): the exposed
                   \* dense weights / vec_W_ against dense(factors) recomputed in that dtype -- bit-identical on tensorly today
 EqTol   == 1      \* two roundings of the same float64 quantity (weight_tensor_ vs dense(factors), vec_W_)
+ScoreTol == 20    \* on score(X, Y) against the R^2 formula evaluated on the same predictions (plus 1e-5 relative)
 PlsTol  == 2      \* 1e-6 between quantities of two different fits + their roundings
 UnitTol(rows) == 4 * rows + 2     \* on SUM a^2 = 1: per entry |a| <= 1 off by 1/2 unit plus truncation < 3
 
@@ -66,6 +67,7 @@ RegV(e) ==
     IF ~ValidReg(c) THEN "InDomain"
     ELSE IF ~(IsTens(e.xnew) /\ Len(e.xnew.shape) = Len(c.xs) + 1 /\ FeatShape(e.xnew) = c.xs
               /\ \A n \in 1..Len(e.xnew.data) : AbsI(e.xnew.data[n]) <= MaxX) THEN "InDomain"
+    ELSE IF ~e.params_ok THEN "ParamsRoundTrip"       \* get_params() returns what the constructor was given, under the published names
     ELSE IF e.fit.raised /\ e.fit.exc = "Timeout" THEN "FitHung"      \* the call never returned (worker killed by the watchdog)
     ELSE IF e.fit.raised THEN "ok"      \* the property speaks about fitted models ("after fitting"): a fit that
                                        \* raises exposes nothing and carries no obligation (counted by the harness)
@@ -143,6 +145,14 @@ PlsExtraV(c, e) ==
                                           /\ AllFin(x.forms[k].transform) /\ AllFin(x.forms[k].pred)) THEN "Shapes"
     ELSE IF \E k \in DOMAIN x.forms : ~Close(x.forms[k].transform, e.base.scores, PlsTol) THEN "TransformDataForm"
     ELSE IF \E k \in DOMAIN x.forms : ~Close(x.forms[k].pred, e.base.pred, PlsTol) THEN "PredictDataForm"
+    \* transform(X, None) is transform(X); score(X, Y) is the documented R^2 of predict(X) against Y about the training
+    \* mean of Y (the harness evaluates that formula on the returned predictions: definitional)
+    ELSE IF ~(IsMat(x.tnone, c.n, c.nc) /\ AllFin(x.tnone)) THEN "Shapes"
+    ELSE IF ~Close(x.tnone, e.base.scores, PlsTol) THEN "TransformSpelling"
+    \* (score documents Y as a 2D-array; with a vector Y the unchanged tree broadcasts (n,) against (n, 1) and returns a
+    \*  wrong number -- reported as F-19c, not asserted here)
+    ELSE IF c.ny # 0 /\ IsFin(x.score) /\ IsFin(x.score_def) /\ AbsI(x.score - x.score_def) > ScoreTol + AbsI(x.score_def) \div 100000 THEN "ScoreIsR2"
+    ELSE IF c.ny # 0 /\ IsFin(x.score) # IsFin(x.score_def) THEN "ScoreIsR2"
     \* a second, fresh estimator fitted on the very same data learns the very same model (default random_state)
     ELSE IF x.again.raised THEN "FitTwiceSame"
     ELSE IF ~FitShapesOK(c, x.again, e.mtest) THEN "Shapes"
@@ -168,6 +178,7 @@ PlsV(e) ==
     LET c == e.cfg IN
     IF ~ValidPls(c) THEN "InDomain"
     ELSE IF ~(IsIntSeq(e.perm, c.n) /\ {e.perm[k] : k \in 1..c.n} = 0..(c.n - 1) /\ e.yoff \in 1..9 /\ e.mtest \in 1..8) THEN "InDomain"
+    ELSE IF ~e.params_ok THEN "ParamsRoundTrip"
     ELSE IF \E f \in {e.base, e.shiftx, e.shifty, e.permfit} : f.raised /\ f.exc = "Timeout" THEN "FitHung"
     ELSE IF e.base.raised \/ e.shiftx.raised \/ e.shifty.raised \/ e.permfit.raised THEN "ok"   \* no fitted model, no obligation
     ELSE IF \E f \in {e.base, e.shiftx, e.shifty, e.permfit} : ~FitShapesOK(c, f, e.mtest) THEN "Shapes"
